@@ -28,7 +28,7 @@ func c17FuzzCountFile() string {
 
 func c17FuzzTick() {
 	n := c17FuzzExecs.Add(1)
-	if n%500 == 0 || n == 1 {
+	if n%50 == 0 || n <= 50 {
 		if p := c17FuzzCountFile(); p != "" {
 			_ = os.WriteFile(p, []byte(strconv.FormatInt(n, 10)), 0o644)
 		}
